@@ -211,6 +211,8 @@ class DictInterp:
             v = self.ev(e.operand, env)
             if isinstance(v, Rat):
                 return -v
+        if isinstance(e, ast.IfExp):
+            return self.ev(e.body, env) if self.truth(e.test, env) else self.ev(e.orelse, env)
         if isinstance(e, ast.DictComp) and len(e.generators) == 1:
             g = e.generators[0]
             out = {}
